@@ -151,6 +151,9 @@ func ruleGuardedIndexing(c *Ctx, rule string) {
 						if _, isLen := builtinCall(call, "len"); isLen && an.AP(call.Call.Args[0]) != an.AP(x.X) {
 							p := an.AP(call.Call.Args[0])
 							dom := an.DominatedByEdgeDeep(c.rootsOf(f, 2), in, func(b *ssa.BasicBlock, succ int) bool {
+								if prefixFoundByIndexFunc(b, succ, x.X, call.Call.Args[0]) {
+									return true
+								}
 								cond, onTrue := an.EdgeCond(b, succ)
 								v, neg := stripNot(cond)
 								hc, ok := v.(*ssa.Call)
@@ -428,4 +431,50 @@ func nonEmptyEdge(b *ssa.BasicBlock, succ int, ap string) bool {
 func isLeadingSlice(v ssa.Value) bool {
 	sl, ok := v.(*ssa.Slice)
 	return ok && sl.Low == nil
+}
+
+
+// prefixFoundByIndexFunc: the edge establishes `i >= 0` for i = slices.IndexFunc(list, func(e) bool { return
+// strings.HasPrefix(s, e) }) and the prefix whose length is sliced off is (a leading slice of) list[i].
+func prefixFoundByIndexFunc(b *ssa.BasicBlock, succ int, s ssa.Value, prefix ssa.Value) bool {
+	cond, _ := an.EdgeCond(b, succ)
+	if cond == nil {
+		return false
+	}
+	v, _ := stripNot(cond)
+	bo, ok := v.(*ssa.BinOp)
+	if !ok {
+		return false
+	}
+	idx, ok := bo.X.(*ssa.Call)
+	if !ok || an.CalleeName(&idx.Call) != "slices.IndexFunc" || !nonNegEdge(b, succ, idx) {
+		return false
+	}
+	mc, ok := idx.Call.Args[1].(*ssa.MakeClosure)
+	if !ok {
+		return false
+	}
+	fn, _ := mc.Fn.(*ssa.Function)
+	if fn == nil || len(fn.Params) != 1 {
+		return false
+	}
+	bare := func(ap string) string {
+		if i := strings.IndexByte(ap, ':'); i >= 0 {
+			return ap[i+1:]
+		}
+		return ap
+	}
+	for _, r := range an.Returns(fn) {
+		hc, ok := r.Results[0].(*ssa.Call)
+		if !ok || an.CalleeName(&hc.Call) != "strings.HasPrefix" || hc.Call.Args[1] != ssa.Value(fn.Params[0]) {
+			return false
+		}
+		if bare(an.AP(hc.Call.Args[0])) != bare(an.AP(s)) {
+			return false
+		}
+	}
+	// the prefix derives from list[i]
+	pap := an.AP(prefix)
+	lap := an.AP(idx.Call.Args[0]) + "[]"
+	return pap == lap || pap == "slice("+lap+")"
 }
